@@ -318,9 +318,9 @@ type behaviour struct {
 	goOK     bool
 }
 
-func rv(name string) resSpec  { return resSpec{T: "val", V: name} }
-func rd(d dspec) resSpec      { return resSpec{T: "desc", D: &d} }
-func ractual() resSpec        { return resSpec{T: "actual"} }
+func rv(name string) resSpec    { return resSpec{T: "val", V: name} }
+func rd(d dspec) resSpec        { return resSpec{T: "desc", D: &d} }
+func ractual() resSpec          { return resSpec{T: "actual"} }
 func rkeys(l []keyElem) resSpec { return resSpec{T: "keys", L: l} }
 
 func otherValue(cur string) []string {
